@@ -147,7 +147,7 @@ impl Monitor for C13 {
         vec![("histories", tier.pick(90_000, 1_800_000)), ("long_windows", tier.pick(6_000, 120_000))]
     }
     fn rule(&self) -> &'static str {
-        "case = one real learn() run of a tiny model (dense(1) or dense(2)->dense(1), linear / ReLU / tanh, bias optional) on 1..3 training and 1..3 validation samples with dyadic inputs, targets, initial weights and learning rates (0.125..2), objective AE or MSE (one case in five: KL divergence or BCE on a sigmoid output with targets in (0,1), which makes negative validation losses), batch 1..3, so that the validation loss really falls, rises from the first epoch, is V-shaped, oscillates (AE steps of fixed size around the optimum, MSE beyond the stable learning rate) or sits on plateaus of exactly equal values (AE gradient 0 at an exact hit, validation inputs 0, dead ReLU); tolerance T in 1..6 (one case in sixteen: 65536, 10^6, 2^30, i32::MAX - 1 or i32::MAX, which can never be reached), epoch budget E in 1..15, with and (every 5th) without validation data, print frequency None / 1 / 2..4 / 100. The offline checker takes the returned vectors v (validation loss), train, accuracy: |train| = |acc| = |v| = n <= E; no e < n with P(e); n < E implies P(n), where P(e) = e > T and v strictly increasing over the last T recorded epochs; without validation data n = E and the other vectors are empty. Independently the event log must show exactly n distinct update step numbers 1..n. Every third case calls learn() a second time on the same network (own tolerance 1..4 and budget 1..10, with validation data) and applies the same checker to that call's vectors. long_windows: tolerance 7..200 (the values around 16, 32, 64, 128, 192 over-represented), budget T+1..3T+1; one weight, x = 1, AE, SGD with learning rate (1 - 1/P) ulp(S): the weight rises by the learning rate every epoch and the validation loss S + w (S = 2^k) recorded in single precision rises by one ulp except for an isolated repeat every P-th epoch, so the tolerance window is a run of rises with a single plateau that visits every window position as the window slides (P < T: training must run to the end; P >= T: it must stop at the first full window of rises, never before epoch T+1); same offline checker; evidence lists the (T, plateau position) pairs seen at decision points. Distinct = distinct (T, E, loss vector) triples; floors: all 13 window comparison patterns for T <= 3 observed at decision points, early stops and full-length runs for every T."
+        "case = one real learn() run of a tiny model (dense(1) or dense(2)->dense(1), linear / ReLU / tanh, bias optional) on 1..3 training and 1..3 validation samples with dyadic inputs, targets, initial weights and learning rates (0.125..2), objective AE or MSE (one case in five: KL divergence or BCE on a sigmoid output with targets in (0,1), which makes negative validation losses), batch 1..3, so that the validation loss really falls, rises from the first epoch, is V-shaped, oscillates (AE steps of fixed size around the optimum, MSE beyond the stable learning rate) or sits on plateaus of exactly equal values (AE gradient 0 at an exact hit, validation inputs 0, dead ReLU); tolerance T in 1..6 (one case in sixteen: 65536, 10^6, 2^30, i32::MAX - 1 or i32::MAX, which can never be reached), epoch budget E in 1..15, with and (every 5th) without validation data (one run in eight passes the training vectors themselves as validation data), print frequency None / 1 / 2..4 / 100. The offline checker takes the returned vectors v (validation loss), train, accuracy: |train| = |acc| = |v| = n <= E; no e < n with P(e); n < E implies P(n), where P(e) = e > T and v strictly increasing over the last T recorded epochs; without validation data n = E and the other vectors are empty. Independently the event log must show exactly n distinct update step numbers 1..n. Every third case calls learn() a second time on the same network (own tolerance 1..4 and budget 1..10, with validation data) and applies the same checker to that call's vectors. long_windows: tolerance 7..200 (the values around 16, 32, 64, 128, 192 over-represented), budget T+1..3T+1; one weight, x = 1, AE, SGD with learning rate (1 - 1/P) ulp(S): the weight rises by the learning rate every epoch and the validation loss S + w (S = 2^k) recorded in single precision rises by one ulp except for an isolated repeat every P-th epoch, so the tolerance window is a run of rises with a single plateau that visits every window position as the window slides (P < T: training must run to the end; P >= T: it must stop at the first full window of rises, never before epoch T+1); same offline checker; evidence lists the (T, plateau position) pairs seen at decision points. Distinct = distinct (T, E, loss vector) triples; floors: all 13 window comparison patterns for T <= 3 observed at decision points, early stops and full-length runs for every T."
     }
     fn assumptions(&self) -> Vec<&'static str> {
         vec!["no value is injected into the library: trajectories come from real training", "NaN validation losses are not generated (comparisons with NaN are unspecified)"]
@@ -226,9 +226,15 @@ impl Monitor for C13 {
         net.set_optimizer(OptCfg::Sgd { lr, decay: None }.build());
         let (xr, tr) = (train.x_refs(), train.t_refs());
         let (vxr, vtr) = (val.x_refs(), val.t_refs());
+        let same_object = with_val && (idx / 13) % 8 == 5;
+        if same_object {
+            out.count("runs_validated_on_the_training_vectors_themselves", 1);
+        }
         let (res, events) = in_cached_pool(2, || {
             guard(|| {
-                let validation: Option<(&Vec<&Tensor>, &Vec<&Tensor>, i32)> = if with_val { Some((&vxr, &vtr, t as i32)) } else { None };
+                // (one case in eight hands the very same vector objects over as training and as
+                // validation data)
+                let validation: Option<(&Vec<&Tensor>, &Vec<&Tensor>, i32)> = if with_val { Some(if same_object { (&xr, &tr, t as i32) } else { (&vxr, &vtr, t as i32) }) } else { None };
                 net.learn(&xr, &tr, validation, batch, e_budget as i32, print)
             })
         });
